@@ -5,6 +5,7 @@ import (
 	"os"
 	"os/exec"
 	"path/filepath"
+	"strings"
 	"strconv"
 	"sync"
 )
@@ -28,6 +29,30 @@ func selftest(args []string) int {
 		if err != nil {
 			return 2
 		}
+		return 0
+	case "noop":
+		// The instrumented tree, with no simulation active, must still pass the
+		// repository's own tests of the instrumented packages: the
+		// instrumentation changes nothing when it is off.
+		scratch, _ := prepare("selftest")
+		defer cleanup(scratch)
+		pkgs := []string{"./pkg/eval/...", "./pkg/cli/...", "./pkg/edit/highlight/...", "./pkg/daemon/...", "./pkg/rpc/...", "./pkg/store/...", "./pkg/lsp/..."}
+		args := append([]string{"test", "-tags", "verif", "-vet=off", "-count=1", "-timeout", "20m"}, pkgs...)
+		cmd := exec.Command(goBin(), args...)
+		cmd.Dir = filepath.Join(scratch, "repo")
+		cmd.Env = goEnv()
+		out, err := cmd.CombinedOutput()
+		lines := strings.Split(string(out), "\n")
+		for _, l := range lines {
+			if !strings.HasPrefix(l, "ok ") && !strings.Contains(l, "no test files") && l != "" {
+				fmt.Println(l)
+			}
+		}
+		if err != nil {
+			fmt.Println("selftest noop: FAILED")
+			return 2
+		}
+		fmt.Println("selftest noop: the repository's tests pass on the instrumented tree")
 		return 0
 	case "determinism":
 		ids := args[1:]
